@@ -80,6 +80,18 @@ CHECKS["C08"] = dict(
    design_ref="DESIGN.md 4.3, 6 (C08)",
    note="Trusted: TLC, the gate scheduler (sequentially consistent interleavings at yield-point grain), harness logging. Bounds: exhaustive 2 procs x 2-3 snapshots, 3 procs x 1-2 snapshots; scenarios up to 4 goroutines, 3 snapshots. The sequential part (Open after last Close fails, NewIterator nil) is also checked in every NitroMVCC trace.")
 
+SL_NOTE = ("Trusted: TLC, the gate scheduler (sequentially consistent interleavings at the granularity of the verif yield points = every getNext/dcasNext of the search/insert/delete paths), "
+           "harness logging and the verif accessors. Bounds: exhaustive 2 processes x 2 operations, 2 keys, 2-3 nodes, 2 levels; gate scenarios up to 6 goroutines, 5 keys, 3-4 levels; free-running up to 6 goroutines. "
+           "amd64 node layout only; weak-memory effects out of scope.")
+CHECKS["C13"] = dict(
+   technique="TLA+ model Skiplist.tla (one action per shared-memory access) exhausted by TLC; TLC-simulated behaviours replayed as gate schedules on the real skiplist; TLC searches a linearization of every recorded call/return history (SetLin.tla); step conformance with the model's invariants evaluated on the real execution (Trace_Skiplist.tla)",
+   text="TLC enumerates all interleavings of the atomic steps of findPath / Insert4 / softDelete / deleteNode for the bounded instance and checks NoDupKeys, exactly-one successful DeleteNode per node, and that every failed operation is justified by the key's presence/absence during its interval (fixed linearization points: publish CAS, level-0 mark CAS). Real executions under TLC-simulated and random gate schedules, and free-running goroutines, are recorded; SetLin.tla lets TLC place the linearization points of every history (a violation = no placement explains the results and the final scan); Trace_Skiplist.tla replays each step, requires every real (successor, mark) word to equal the model's, and evaluates the model's properties on that state.",
+   design_ref="DESIGN.md 4.1, 6 (C13-C15)", note=SL_NOTE)
+CHECKS["C14"] = dict(
+   technique="TLA+ model Skiplist.tla (QStruct, NoMarkedLinked at quiescence) exhausted by TLC; gate-scheduled and free-running executions of the real skiplist, builder and restore; per-level walk and statistics at quiescence judged by TLC (SlQuiesce.tla, Trace_Builder.tla)",
+   text="QStruct is a quiescence invariant of Skiplist.tla checked over all interleavings of the bounded instance (every level a strictly increasing chain of live nodes ending at the tail, sub-sequence of the level below, every live node linked up to its height). On the real code, after every gate-scheduled / free-running scenario the harness walks every level through the verif accessors (including marked nodes) and reads GetStats; TLC judges order, sub-sequence, tail, no marked node linked, node count, per-level distribution, soft deletes, memory and the iterator's view. Structures produced by the builder are judged by the C18 check, restored ones by the C05 check, with the same walk.",
+   design_ref="DESIGN.md 4.1, 6 (C13-C15)", note=SL_NOTE)
+
 NOT_YET = "check not built yet (work in progress; see DESIGN.md section 8.1 build order)"
 
 def main():
